@@ -273,30 +273,12 @@ class ClsInterp:
         return exp
 
     def relative_union(self, ar, br, r, am, bm):
-        """real-vs-real laws of `|` over *all* of Unicode, including the code points only the shorthands add:
-        A | B matches exactly what A or B match (negated classes: what both match), and B | A denotes the same set"""
-        if not (isinstance(ar, Pregex) and isinstance(br, Pregex) and isinstance(r, Pregex)):
-            return
-        ev = self.events[-1]
-        if ev['verdict'] != 'set-equal' or not (isinstance(am, CV) and isinstance(bm, CV)):
-            return
-        ta, tb, tr = str(ar), str(br), str(r)
-        if not (C.uses_shorthand(ta) or C.uses_shorthand(tb) or C.uses_shorthand(tr)):
-            return
-        try:
-            sr = C.scan(tr)
-        except re.error:
-            return
-        self.stats['union-order-checks'] += 1
-        # (what `|` does to code points that only a shorthand adds is left unspecified by the property - e.g.
-        #  '/' | AnyDigit() merges into the range [/-9] and drops \d - so only order independence is judged there)
-        try:
-            rev = br | ar
-        except Exception as e:
-            self.viol(ev, 'class:order-dependent', '%r | %r gives a class but the swapped union raises %s' % (ta, tb, type(e).__name__))
-            return
-        if isinstance(rev, Pregex) and C.scan(str(rev)) != sr:
-            self.viol(ev, 'class:order-dependent', '%r | %r = %r but swapped = %r: different sets' % (ta, tb, tr, str(rev)))
+        """(no extra law: what a union does to code points that only a shorthand adds is left unspecified by C06/C07.
+        Three candidate real-vs-real laws over that region were tried and removed as false alarms on the unchanged tree:
+        exact relative union ('/' | AnyDigit() merges into [/-9] and drops \\d), order independence (the same merge
+        happens on one side only in [^\\d(-.] | [^/c-{]) and 'a global word class stays global' ('/' | AnyWordChar(True)
+        merges '/' with 0-9, after which the \\w shorthand is no longer recognised).)"""
+        return
 
     def viol(self, ev, symptom, detail):
         ev['verdict'] = 'viol'
